@@ -72,6 +72,9 @@ def make_text(rng):
     return text, must
 
 
+RETURNED = []   # (class, source substring, text) of every object returned in this run: validity is decided by the Lean grammar
+
+
 def extract(text):
     parser = importlib.import_module("cvss.parser")
     return parser.parse_cvss_from_text(text)
@@ -97,6 +100,7 @@ def oracle(ctx, text, must):
             ctx.violation("unsound:substring-not-valid-for-class", "a returned object's source substring is not a valid vector of its class",
                           text, None, [ver, vec, e2], replay=rp)
         out.append((ver, o.clean_vector()))
+        RETURNED.append((ver, vec, text))
     for i in range(len(res)):
         for j in range(i + 1, len(res)):
             if res[i] == res[j]:
@@ -129,6 +133,15 @@ def run(ctx):
         ctx.nontrivial(text)
         impl_sets.append(oracle(ctx, text, must))
         ctx.tally.add("results:%d" % (len(impl_sets[-1]) if impl_sets[-1] is not None else -1))
+    if ctx.model_available and RETURNED:
+        ret = list(dict.fromkeys((v, vec) for v, vec, _ in RETURNED if core.sendable(vec)))
+        verdict = core.run_driver(["S\tacc\t%s\t%s" % (v, enc(vec)) for v, vec in ret])
+        badset = {(v, vec) for (v, vec), vd in zip(ret, verdict) if vd != "ok"}
+        for v, vec, text in RETURNED:
+            if (v, vec) in badset:
+                ctx.violation("unsound:substring-not-in-grammar-v%s" % v, "a returned object was built from a substring that is not a valid vector of its version's grammar",
+                              text, "valid v%s vector" % v, vec, replay={"text": text, "must": [], "grammar": [v, vec]})
+        del RETURNED[:]
     if ctx.model_available:
         # direct tie of the scanner model to Python's re on the (pinned copy of the) library's pattern
         import re as _re
@@ -161,4 +174,10 @@ def replay(data):
             self.v.append(sig + ": " + what)
     c = C()
     res = oracle(c, r["text"], [tuple(x) for x in r["must"]])
+    if r.get("grammar"):
+        v, vec = r["grammar"]
+        still = any(rv == v and rvec == vec for rv, rvec, _ in RETURNED)
+        del RETURNED[:]
+        if still and core.run_driver(["S\tacc\t%s\t%s" % (v, enc(vec))])[0] != "ok":
+            c.v.append("returned object built from %r, which is not in the v%s grammar" % (vec, v))
     return not c.v, "parse_cvss_from_text(%r) -> %r; %s" % (r["text"], res, "; ".join(c.v) or "ok")
